@@ -24,7 +24,7 @@ func init() {
 			N, nS = 3, 300
 		}
 		stdBounds(c, N)
-		c.Bounds["histories"] = "two inputs per instance (all pairs of lengths 0..3), the same input twice, and (thorough) three inputs of length <= 2; Size in {unset, 1, 64}; U in {uint16, uint32, uint64, uint} x Size in {unset, 0, 1, 64}"
+		c.Bounds["histories"] = "two inputs per instance (all pairs of lengths 0..3; a few pairs also with memoisation disabled), the same input twice, and (thorough) three inputs of length <= 2; Size in {unset, 1, 64}; U in {uint16, uint32, uint64, uint} x Size in {unset, 0, 1, 64}"
 		c.Bounds["long_inputs"] = "long-input layer: reuse across lengths (L then 2, 2 then L, L twice; L in 17, 255, 256 quick / up to 300 thorough) and narrow instantiations at the edge of their range: uint8 at 100 runes (127, 128, 254, 255 for grammars with a constant token count), uint16 at 255, 256, 300 (thorough: 65534, 65535); two arbitrary runes per input, the rest a concrete filler"
 		c.Bounds["outside"] = "histories longer than 3 inputs; inputs or token counts that do not fit U (excluded by the property); fully symbolic inputs longer than 3 runes in histories"
 		return smallFamily(c, nS), &GramSpec{
@@ -40,6 +40,7 @@ func init() {
 				}
 				return append(narrow, []EntrySpec{
 					{Name: "C12", Params: "n1, n2, size int", Body: "hl.C12(G, vd.New, HASACT, size, []int{n1, n2}, false, NSW)"},
+					{Name: "C12nomemo", Params: "n1, n2 int", Body: "hl.C12NoMemo(G, vd.New, HASACT, []int{n1, n2}, NSW)"},
 					{Name: "C12same", Params: "n, size int", Body: "hl.C12(G, vd.New, HASACT, size, []int{n, n}, true, NSW)"},
 					{Name: "C12three", Params: "n1, n2, n3, size int", Body: "hl.C12(G, vd.New, HASACT, size, []int{n1, n2, n3}, false, NSW)"},
 					{Name: "C12U", Params: "n int", Body: `hl.C12U(G, []func() hl.Parser{vd.New, vd.New16, vd.New64, vd.NewU}, []string{"uint32", "uint16", "uint64", "uint"}, HASACT, []int{-1, 0, 1, 64}, n, NSW)`},
@@ -107,6 +108,10 @@ func init() {
 				}
 				for n := 0; n <= N+1; n++ {
 					jobs = append(jobs, &Job{Entry: "C12U", Args: []int{n}})
+				}
+				// histories with memoisation disabled
+				for _, ns := range [][2]int{{3, 3}, {3, 2}, {2, 3}, {3, 1}, {3, 0}} {
+					jobs = append(jobs, &Job{Entry: "C12nomemo", Args: []int{ns[0], ns[1]}})
 				}
 				return jobs
 			},
